@@ -404,6 +404,11 @@ type RandLayout struct {
 	Dense bool
 }
 
+// PreGap implements PreGapper: blank lines between two own-line comments in front of one token.
+func (l RandLayout) PreGap(i, j int) string {
+	return rapid.SampledFrom([]string{"", "", "\n", "\n\n", "  \n", "\r\n"}).Draw(l.T, fmt.Sprintf("%s_pg%d_%d", l.Label, i, j))
+}
+
 var gaps = []string{" ", " ", "  ", "\t", "\n", "\n\n", "\n    ", " \n\t", "\r\n", "   \n  \n "}
 
 // Gap implements Layouter.
